@@ -259,8 +259,9 @@ class Interp:
             pos += 1
         if 'I' in (o.d.cbs or ''):
             raise Unspec('include')
-        self.trace.append(('func', o.d.name, args))
-        self.cb(pos)
+        if 'F' in (o.d.cbs or ''):
+            self.trace.append(('func', o.d.name, args))
+            self.cb(pos)
         return pos + 1
 
 
